@@ -173,7 +173,7 @@ Lemma pop_reference_loop_lx : forall fuel acc s r s', wst_ok inp s -> wlive s ->
   pop_reference_loop fuel acc s = WOk r s' -> Forall id_ok r.
 Proof.
   induction fuel as [|f IH]; intros acc s r s' Hok Hl Ht Ha; cbn [pop_reference_loop]; [discriminate|].
-  destruct (pop_ident s) as [i s1|t s1|p|] eqn:E; try discriminate.
+  destruct (pop_ident s) as [i s1|t wet s1|p|] eqn:E; try discriminate.
   - pose proof (pop_ident_lx s i s1 Hok Hl Ht E) as Hi.
     destruct (pop_ident_pne inp s i s1 Hok Hl E) as [_ Hst].
     assert (Ha' : Forall id_ok (acc ++ [i])) by (apply Forall_app; split; [exact Ha|constructor; [exact Hi|constructor]]).
@@ -215,7 +215,7 @@ Lemma pop_elems_lx pv (bound : nat) (d1 : N) op :
   vlx v /\ v_ends_line v = false /\ exists vs, v = VArr vs (tstart op) (current_pos s') /\ d1 + elems_depth vs <= max_value_depth.
 Proof.
   intros Hpv. induction fuel2 as [|f2 IH]; intros acc s2 v s' Hok Hl Ht Hb Hacc Hda; cbn [pop_elems]; [discriminate|].
-  destruct (pv s2) as [v0 s3|t s3|p|] eqn:Ev; try discriminate. cbn [wbind].
+  destruct (pv s2) as [v0 s3|t wet s3|p|] eqn:Ev; try discriminate. cbn [wbind].
   destruct (Hpv s2 v0 s3 Hok Hl Ht Hb Ev) as [(Hv0 & He0 & Hd0) H23].
   pose proof (wstep_tinv _ _ H23 Ht) as Ht3.
   destruct (pop_token_spec inp s3 (ws_ok _ _ _ H23) (wstep_live _ _ _ H23)) as (t4 & s4 & E4 & H34 & _).
@@ -252,10 +252,10 @@ Proof.
   revert E. cbn [pop_value].
   destruct (tt_eqb (next_type s) IDENT) eqn:E1.
   { apply tt_eqb_true in E1.
-    destruct (pop_reference s) as [r s1|t s1|p|] eqn:Er; try discriminate. cbn [wbind]. intros [= <- <-].
+    destruct (pop_reference s) as [r s1|t wet s1|p|] eqn:Er; try discriminate. cbn [wbind]. intros [= <- <-].
     split; [|split; [discriminate|cbn; lia]]. constructor; [|reflexivity]. unfold tok_lx, ctyp. cbn. exact I. }
   destruct (is_literal (next_type s)) eqn:E2.
-  { destruct (pop_token s) as [t s1|t s1|p|] eqn:Et; try discriminate. cbn [wbind]. intros [= <- <-].
+  { destruct (pop_token s) as [t s1|t wet s1|p|] eqn:Et; try discriminate. cbn [wbind]. intros [= <- <-].
     assert (Hn : next_type s <> EOF) by (intros H; rewrite H in E2; discriminate).
     assert (Hty : ty t = next_type s).
     { destruct (pop_token_spec inp s Hok Hl) as (t0 & s0 & E0 & _ & _ & Hty & _). rewrite Et in E0. injection E0 as <- <-. exact Hty. }
@@ -272,7 +272,7 @@ Proof.
   specialize (Hlen Hr).
   destruct (N.leb max_value_depth depth) eqn:Edep; [discriminate|]. apply N.leb_gt in Edep.
   destruct (tt_eqb (next_type s1) RBRACK) eqn:E4.
-  { destruct (pop_token s1) as [t2 s2|t2 s2|p|] eqn:E2'; try discriminate. cbn [wbind]. intros [= <- <-].
+  { destruct (pop_token s1) as [t2 s2|t2 wet2 s2|p|] eqn:E2'; try discriminate. cbn [wbind]. intros [= <- <-].
     split; [constructor; constructor|split; [discriminate|cbn; lia]]. }
   intros E5.
   destruct (pop_elems_lx (pop_value f (N.succ depth)) f (N.succ depth) op) with (fuel2 := S (length (wrest s1))) (acc := @nil value)
@@ -288,7 +288,7 @@ Qed.
 
 Lemma pop_value_top_lx s v s' : wst_ok inp s -> wlive s -> tinv s -> pop_value_top s = WOk v s' ->
   value_lx_out 0 v s' /\ wstep inp s s'.
-Proof. intros. apply (pop_value_lx (S (length (wrest s))) 0); auto. unfold max_value_depth. lia. Qed.
+Proof. intros. apply (pop_value_lx (S (length (wrest s))) 0); auto. apply N.le_0_l. Qed.
 
 (* a popped operator token has its one-rune literal *)
 Lemma op_tok_lit t typ c : tok_lx t -> ty t = typ -> op_of c = Some typ ->
@@ -318,18 +318,18 @@ Proof.
       wbind (pop_reference s0) (fun r s1 => WOk (mkTag mk mt (TagRef r) (ref_start r) (ref_end r)) s1)
     | STRING =>
       wbind (pop_value_top s0) (fun v s1 => WOk (mkTag mk mt (TagVal v) (value_start v) (value_end v)) s1)
-    | _ => wbind (pop_token s0) (fun t s1 => WErr t s1)
+    | _ => wbind (pop_token s0) (fun t s1 => WErr t (Expected exp_tag) s1)
     end = WOk t s' -> tlx t).
   { intros mk mt s0 Hok0 Hl0 Ht0 Hm.
     assert (Hr : next_type s0 = IDENT \/ next_type s0 = BOOL ->
               wbind (pop_reference s0) (fun r s1 => WOk (mkTag mk mt (TagRef r) (ref_start r) (ref_end r)) s1) = WOk t s' -> tlx t).
-    { intros Hn. destruct (pop_reference s0) as [r s1|t1 s1|p|] eqn:Er; try discriminate. cbn [wbind]. intros [= <- _].
+    { intros Hn. destruct (pop_reference s0) as [r s1|t1 wet1 s1|p|] eqn:Er; try discriminate. cbn [wbind]. intros [= <- _].
       split; [exact Hm|]. cbn. eapply pop_reference_lx; eauto. }
-    assert (Hd : wbind (pop_token s0) (fun t s1 => WErr (A:=tag) t s1) = WOk t s' -> tlx t).
+    assert (Hd : wbind (pop_token s0) (fun t s1 => WErr (A:=tag) t (Expected exp_tag) s1) = WOk t s' -> tlx t).
     { destruct (pop_token s0); discriminate. }
     destruct (next_type s0) eqn:En; auto.
     unfold pop_value_top. cbn [pop_value]. rewrite En. cbn.
-    destruct (pop_token s0) as [tk s1|tk s1|p|] eqn:Et; try discriminate. cbn [wbind]. intros [= <- _].
+    destruct (pop_token s0) as [tk s1|tk wetk s1|p|] eqn:Et; try discriminate. cbn [wbind]. intros [= <- _].
     split; [exact Hm|]. cbn.
     destruct (pop_token_spec inp s0 Hok0 Hl0) as (t0 & s00 & E0 & _ & _ & Hty & _). rewrite Et in E0. injection E0 as <- <-.
     rewrite Hty. exact En. }
@@ -343,7 +343,7 @@ Proof.
         wbind (pop_reference s1) (fun r s2 => WOk (mkTag mk (Some t0) (TagRef r) (ref_start r) (ref_end r)) s2)
       | STRING =>
         wbind (pop_value_top s1) (fun v s2 => WOk (mkTag mk (Some t0) (TagVal v) (value_start v) (value_end v)) s2)
-      | _ => wbind (pop_token s1) (fun t s2 => WErr t s2)
+      | _ => wbind (pop_token s1) (fun t s2 => WErr t (Expected exp_tag) s2)
       end) = WOk t s' -> tlx t).
   { intros mk c Hop Hne Hni Hmk. rewrite E. cbn [wbind].
     apply Hafter; [apply Hst|eapply wstep_live; eauto|eapply wstep_tinv; eauto|].
@@ -362,7 +362,7 @@ Proof.
   induction fuel as [|f IH]; intros acc s ts s' Hok Hl Ht Ha; cbn [tags_loop]; [discriminate|].
   destruct (can_start_tag (next_type s)); [|intros [= <- _]; exact Ha].
   pose proof (pop_tag_spec inp s Hok Hl) as Hs. unfold tag_res in Hs.
-  destruct (pop_tag s) as [t s1|t s1|p|] eqn:Et; try discriminate. cbn [wbind]. cbn in Hs. destruct Hs as (Hst & _).
+  destruct (pop_tag s) as [t s1|t wet s1|p|] eqn:Et; try discriminate. cbn [wbind]. cbn in Hs. destruct Hs as (Hst & _).
   apply IH; [apply Hst|eapply wstep_live; eauto|eapply wstep_tinv; eauto|].
   apply Forall_app. split; [exact Ha|constructor; [eapply pop_tag_lx; eauto|constructor]].
 Qed.
@@ -375,7 +375,7 @@ Proof.
   destruct (pop_token_spec inp s Hok Hl) as (t0 & s0 & E & Hst & _).
   rewrite E. cbn [wbind].
   pose proof (pop_tag_spec inp s0 (ws_ok _ _ _ Hst) (wstep_live _ _ _ Hst)) as Hs. unfold tag_res in Hs.
-  destruct (pop_tag s0) as [t s1|t s1|p|] eqn:Et; try discriminate. cbn [wbind]. cbn in Hs. destruct Hs as (Hst1 & _).
+  destruct (pop_tag s0) as [t s1|t wet s1|p|] eqn:Et; try discriminate. cbn [wbind]. cbn in Hs. destruct Hs as (Hst1 & _).
   pose proof (wstep_tinv _ _ Hst Ht) as Ht0.
   apply IH; [apply Hst1|eapply wstep_live; eauto|eapply wstep_tinv; eauto|].
   apply Forall_app. split; [exact Ha|constructor; [|constructor]].
@@ -391,7 +391,7 @@ Proof.
   destruct (ty t) eqn:Et; try discriminate.
   - intros [= <- _]. split; [exact I|reflexivity].
   - intros [= <- _]. split; [exact I|reflexivity].
-  - destruct (pop_token s1) as [t2 s2|t2 s2|p|]; try discriminate. cbn [wbind].
+  - destruct (pop_token s1) as [t2 s2|t2 wet2 s2|p|]; try discriminate. cbn [wbind].
     destruct (ty t2); try discriminate; intros [= <- _]; (split; [|intros [H|H]; rewrite <- Hty in H; discriminate]);
       cbn; (assert (Hlx : tok_lx t) by (eapply pop_lx; eauto; rewrite <- Hty; discriminate));
       unfold tok_lx, ctyp in Hlx; rewrite Et in Hlx; exact Hlx.
@@ -404,9 +404,9 @@ Proof.
   destruct (pop_token_spec inp s Hok Hl) as (t & s1 & E & Hst & _).
   rewrite E. cbn [wbind]. destruct (negb (tt_eqb (ty t) ASSIGN)); [discriminate|].
   pose proof (wstep_tinv _ _ Hst Ht) as Ht1.
-  destruct (pop_value_top s1) as [v s2|t2 s2|p|] eqn:Ev; try discriminate. cbn [wbind].
+  destruct (pop_value_top s1) as [v s2|t2 wet2 s2|p|] eqn:Ev; try discriminate. cbn [wbind].
   destruct (pop_value_top_lx s1 v s2 (ws_ok _ _ _ Hst) (wstep_live _ _ _ Hst) Ht1 Ev) as [(Hv & He & Hdp) H12].
-  destruct (end_statement s2) as [c s3|t3 s3|p|] eqn:Ee; try discriminate. cbn [wbind].
+  destruct (end_statement s2) as [c s3|t3 wet3 s3|p|] eqn:Ee; try discriminate. cbn [wbind].
   destruct (end_statement_lx s2 c s3 (ws_ok _ _ _ H12) (wstep_live _ _ _ H12) (wstep_tinv _ _ H12 Ht1) Ee) as [Hc Hn].
   intros [= <- _]. cbn [frag_lx alx akey avalue acomment]. split; [exact Hr|]. split; [exact Hv|]. split; [exact Hc|]. split; [|rewrite N.add_0_l in Hdp; exact Hdp].
   intros Hel. apply Hn. apply He. exact Hel.
@@ -417,7 +417,7 @@ Lemma walk_statement_lx s f s' : wst_ok inp s -> wlive s -> tinv s ->
 Proof.
   intros Hok Hl Ht Hn. unfold walk_statement.
   pose proof (pop_reference_spec inp s Hok Hl Hn) as Href.
-  destruct (pop_reference s) as [r s1|t s1|p|] eqn:Er; try discriminate. cbn [wbind]. cbn in Href.
+  destruct (pop_reference s) as [r s1|t wet s1|p|] eqn:Er; try discriminate. cbn [wbind]. cbn in Href.
   destruct Href as (H01 & _ & _).
   pose proof (pop_reference_lx s r s1 Hok Hl Ht Hn Er) as Hr.
   assert (Hok1 := ws_ok _ _ _ H01). assert (Hl1 := wstep_live _ _ _ H01). assert (Ht1 := wstep_tinv _ _ H01 Ht).
@@ -428,12 +428,12 @@ Proof.
     destruct (negb (tt_eqb (next_type s2) ASSIGN)); [destruct (pop_token s2); discriminate|].
     apply walk_value_assign_lx; [apply H12|eapply wstep_live; eauto|eapply wstep_tinv; eauto|exact Hr]. }
   pose proof (tags_loop_spec inp (S (length (wrest s1))) [] s1 (hw s) Hok1 Hl1) as Hts.
-  destruct (tags_loop (S (length (wrest s1))) [] s1) as [tags s2|t s2|p|] eqn:Et; try discriminate. cbn [wbind].
+  destruct (tags_loop (S (length (wrest s1))) [] s1) as [tags s2|t wet s2|p|] eqn:Et; try discriminate. cbn [wbind].
   destruct Hts as (A2 & Hok2 & Hl2 & _); [apply H01|constructor|lia|].
   pose proof (tags_loop_lx _ _ _ _ _ Hok1 Hl1 Ht1 (Forall_nil _) Et) as Htags.
   assert (Ht2 : tinv s2) by (destruct A2 as [->|A2]; [exact Ht1|eapply wstep_tinv; eauto]).
   pose proof (quals_loop_spec inp (S (length (wrest s2))) [] s2 (hw s2) Hok2 Hl2) as Hqs.
-  destruct (quals_loop (S (length (wrest s2))) [] s2) as [quals s3|t s3|p|] eqn:Eq; try discriminate. cbn [wbind].
+  destruct (quals_loop (S (length (wrest s2))) [] s2) as [quals s3|t wet s3|p|] eqn:Eq; try discriminate. cbn [wbind].
   destruct Hqs as (A3 & Hok3 & Hl3 & _); [apply pos_le_refl|constructor|lia|].
   pose proof (quals_loop_lx _ _ _ _ _ Hok2 Hl2 Ht2 (Forall_nil _) Eq) as Hquals.
   assert (Ht3 : tinv s3) by (destruct A3 as [->|A3]; [exact Ht2|eapply wstep_tinv; eauto]).
@@ -441,7 +441,7 @@ Proof.
   destruct (next_type s3) eqn:En3; try (rewrite E4; discriminate).
   - intros [= <- _]. cbn. split; [exact Hr|]. split; [exact Htags|]. split; [exact Hquals|]. split; exact I.
   - intros [= <- _]. cbn. split; [exact Hr|]. split; [exact Htags|]. split; [exact Hquals|]. split; exact I.
-  - destruct (end_statement s3) as [c s5|t5 s5|p|] eqn:Ee; try discriminate. cbn [wbind].
+  - destruct (end_statement s3) as [c s5|t5 wet5 s5|p|] eqn:Ee; try discriminate. cbn [wbind].
     destruct (end_statement_lx s3 c s5 Hok3 Hl3 Ht3 Ee) as [Hc _].
     intros [= <- _]. cbn. split; [exact Hr|]. split; [exact Htags|]. split; [exact Hquals|]. split; [exact Hc|exact I].
   - rewrite E4. cbn [wbind]. intros [= <- _]. cbn. split; [exact Hr|]. split; [exact Htags|]. split; [exact Hquals|]. split; [exact I|].
@@ -449,7 +449,7 @@ Proof.
     exists t4. split; [reflexivity|]. split; [exact Hty4|].
     eapply pop_lx; eauto. rewrite En3. discriminate.
   - rewrite E4. cbn [wbind].
-    destruct (end_statement s4) as [c s5|t5 s5|p|] eqn:Ee; try discriminate. cbn [wbind].
+    destruct (end_statement s4) as [c s5|t5 wet5 s5|p|] eqn:Ee; try discriminate. cbn [wbind].
     destruct (end_statement_lx s4 c s5 (ws_ok _ _ _ H34) (wstep_live _ _ _ H34) (wstep_tinv _ _ H34 Ht3) Ee) as [Hc _].
     intros [= <- _]. cbn. split; [exact Hr|]. split; [exact Htags|]. split; [exact Hquals|]. split; [exact Hc|exact I].
 Qed.
@@ -484,13 +484,13 @@ Proof.
   intros Hok Hl Ht. unfold next_fragment.
   destruct (pop_token_spec inp s Hok Hl) as (t & s1 & E & Hst & _ & Hty & _).
   destruct (next_type s) eqn:En; try (rewrite E; discriminate).
-  - destruct (walk_statement s) as [f0 s0|t0 s0|p|] eqn:Ew; try discriminate. cbn [wbind].
+  - destruct (walk_statement s) as [f0 s0|t0 wet0 s0|p|] eqn:Ew; try discriminate. cbn [wbind].
     intros [= <- _]. eapply walk_statement_lx; eauto.
-  - destruct (walk_statement s) as [f0 s0|t0 s0|p|] eqn:Ew; try discriminate. cbn [wbind].
+  - destruct (walk_statement s) as [f0 s0|t0 wet0 s0|p|] eqn:Ew; try discriminate. cbn [wbind].
     intros [= <- _]. eapply walk_statement_lx; eauto.
   - rewrite E. cbn [wbind]. intros [= <- _]. cbn. split; [left; congruence|]. eapply pop_lx; eauto. rewrite En. discriminate.
   - rewrite E. cbn [wbind]. intros [= <- _]. cbn. split; [right; congruence|]. eapply pop_lx; eauto. rewrite En. discriminate.
-  - unfold pop_description. destruct (pop_description_loop (S (length (wrest s))) [] s) as [d s0|t0 s0|p|] eqn:Ed; try discriminate.
+  - unfold pop_description. destruct (pop_description_loop (S (length (wrest s))) [] s) as [d s0|t0 wet0 s0|p|] eqn:Ed; try discriminate.
     cbn [wbind]. intros [= <- _]. cbn. eapply pop_description_loop_lx; eauto.
   - rewrite E. cbn [wbind]. intros [= <- _]. cbn. split; [congruence|].
     assert (Hlx : tok_lx t) by (eapply pop_lx; eauto; rewrite En; discriminate).
@@ -507,7 +507,7 @@ Proof.
   assert (Hr : wrest s <> []) by (apply (next_type_not_eof inp); auto).
   assert (Hl : wlive s) by (left; exact Hr).
   pose proof (next_fragment_spec inp s Hok Hl) as Hn.
-  destruct (next_fragment s) as [fo s1|t s1|p|] eqn:En; cbn in Hn; try contradiction.
+  destruct (next_fragment s) as [fo s1|t wet s1|p|] eqn:En; cbn in Hn; try contradiction.
   - destruct Hn as (H01 & _ & Hlen). specialize (Hlen Hr).
     specialize (IH s1). destruct (walk_fragments_loop f true s1) as [fs1 ds1|p|] eqn:Ew; try discriminate.
     specialize (IH fs1 ds1 (ws_ok _ _ _ H01) (wstep_tinv _ _ H01 Ht) ltac:(lia) eq_refl).
